@@ -280,7 +280,7 @@ def run(ctx):
     for ev, v in zip(events, verdicts):
         st = ev["st"]
         tags = set()
-        if st["op"] == "make" and st["route"] not in ("int", "epsgstr"):
+        if st["op"] in ("make", "pickle") and st["route"] not in ("int", "epsgstr"):
             tags.add("spec_is_wkt_json_or_pyproj_object")
         ctx.record({"st": st, "tid": ev["tid"], "k": ev["k"]}, v, op="history:" + st["op"], tags=tags, conformance=True,
                    nontrivial=st["op"] in ("make", "copy", "pickle", "transform"), sample={"step": st, "observed": ev["ob"]})
